@@ -284,6 +284,11 @@ func (doc *Document) nonIndividuals() Nodes {
 
 func (doc *Document) SetNodes(nodes Nodes) {
 	doc.nodes = nodes
+
+	// Forget everything that was derived from the previous records.
+	doc.families = nil
+	doc.buildPointerCache()
+	doc.familyLinksVersion++
 }
 
 func individuals(doc *Document) IndividualNodes {
